@@ -285,6 +285,147 @@ Proof.
     destruct (N.land lst (not8 (overflowing_shr8 255 (8 - (n mod 4294967296) mod 8))) =? 0); reflexivity.
 Qed.
 
+(** ** [shift_up] and [difference_inplace]: loops over index ranges *)
+
+(** A fold in the outcome monad commutes with an abstraction function that the body respects. *)
+Lemma fold_m_abs {S T X} (abs : S -> T) (F : S -> X -> outcome S) (f : T -> X -> outcome T) l :
+  (forall s x, omap abs (F s x) = f (abs s) x) ->
+  forall s, omap abs (fold_m F l s) = fold_m f l (abs s).
+Proof.
+  intro H. induction l as [|x r IH]; intro s; [reflexivity|].
+  cbn [fold_m]. specialize (H s x).
+  destruct (F s x) as [s'| |]; destruct (f (abs s) x) as [t'| |]; cbn [omap bind] in *; try discriminate; try reflexivity.
+  injection H as H. rewrite IH, H. reflexivity.
+Qed.
+
+(** The model writes its loops as [fold_left] over an [outcome] accumulator. *)
+Lemma fold_left_outcome {T X} (f : T -> X -> outcome T) l : forall acc,
+  fold_left (fun acc i => do cur <- acc; f cur i) l acc = bind acc (fold_m f l).
+Proof.
+  induction l as [|x r IH]; intro acc; cbn [fold_left fold_m].
+  - destruct acc; reflexivity.
+  - rewrite IH. destruct acc; reflexivity.
+Qed.
+
+Lemma rev_range_up lo hi : rev (range_up lo hi) = range_down lo hi.
+Proof. unfold range_up, range_down. rewrite map_rev. reflexivity. Qed.
+
+Lemma shift_up_fold b n :
+  shift_up b n =
+  if n <=? bf_len b then
+    do b1 <- fold_m (fun cur i => do x <- bf_get cur (i - n); bf_set cur i x) (range_down n (bf_len b)) b;
+    fold_m (fun cur i => match bf_set cur i false with Ok c => Ok c | _ => Panic end) (range_up 0 n) b1
+  else Err.
+Proof.
+  unfold shift_up. destruct (n <=? bf_len b); [|reflexivity].
+  rewrite (fold_left_outcome (fun cur i => do x <- bf_get cur (i - n); bf_set cur i x)). cbn [bind].
+  destruct (fold_m _ (range_down n (bf_len b)) b); cbn [bind]; try reflexivity.
+  rewrite (fold_left_outcome (fun cur i => match bf_set cur i false with Ok c => Ok c | _ => Panic end)).
+  reflexivity.
+Qed.
+
+Theorem gen_bitfield_shift_up_eq b n :
+  omap bf_abs (Gen.bitfield_shift_up b n) = shift_up (bf_abs b) n.
+Proof.
+  rewrite shift_up_fold. unfold Gen.bitfield_shift_up. rewrite gen_bitfield_len_eq. cbn [bind].
+  destruct (n <=? bf_len (bf_abs b)) eqn:E; [|reflexivity].
+  rewrite rev_range_up.
+  change (Gen.Bitfield_len b) with (bf_len (bf_abs b)).
+  set (F1 := fun (self : Gen.Bitfield) (i : N) =>
+               do t <- usize_sub i n; do q <- Gen.bitfield_get self t; do st <- Gen.bitfield_set self i q; Ok st).
+  set (F2 := fun (self : Gen.Bitfield) (i : N) => do st <- unwrap_res (Gen.bitfield_set self i false); Ok st).
+  assert (H1 : forall l s, (forall i, In i l -> n <= i) ->
+            omap bf_abs (fold_m F1 l s) = fold_m (fun cur i => do x <- bf_get cur (i - n); bf_set cur i x) l (bf_abs s)).
+  { induction l as [|i r IH]; intros s Hin; [reflexivity|]. cbn [fold_m]. unfold F1 at 1.
+    unfold usize_sub. assert (Hi : (n <=? i) = true) by (apply N.leb_le, Hin; left; reflexivity).
+    rewrite Hi. cbn [bind]. rewrite gen_bitfield_get_eq.
+    destruct (bf_get (bf_abs s) (i - n)) as [x| |]; cbn [bind omap]; try reflexivity.
+    pose proof (gen_bitfield_set_eq s i x) as Es.
+    destruct (Gen.bitfield_set s i x) as [s'| |]; destruct (bf_set (bf_abs s) i x) as [t'| |];
+      cbn [omap bind] in *; try discriminate; try reflexivity.
+    injection Es as Es. rewrite <- Es. apply IH. intros j Hj. apply Hin. right. exact Hj. }
+  assert (H2 : forall l s,
+            omap bf_abs (fold_m F2 l s) = fold_m (fun cur i => match bf_set cur i false with Ok c => Ok c | _ => Panic end) l (bf_abs s)).
+  { intro l. apply fold_m_abs. intros s i. unfold F2.
+    pose proof (gen_bitfield_set_eq s i false) as Es.
+    destruct (Gen.bitfield_set s i false) as [s'| |]; destruct (bf_set (bf_abs s) i false) as [t'| |];
+      cbn [omap bind unwrap_res] in *; try discriminate; try reflexivity.
+    injection Es as Es. rewrite Es. reflexivity. }
+  specialize (H1 (range_down n (bf_len (bf_abs b))) b).
+  assert (Hr : forall i, In i (range_down n (bf_len (bf_abs b))) -> n <= i).
+  { intros i Hi. unfold range_down in Hi. apply in_map_iff in Hi. destruct Hi as (k & Hk & _). lia. }
+  specialize (H1 Hr).
+  destruct (fold_m F1 (range_down n (bf_len (bf_abs b))) b) as [s1| |];
+    destruct (fold_m (fun cur i => do x <- bf_get cur (i - n); bf_set cur i x) (range_down n (bf_len (bf_abs b))) (bf_abs b)) as [t1| |];
+    cbn [omap bind] in *; try discriminate; try reflexivity.
+  injection H1 as H1. rewrite <- H1.
+  specialize (H2 (range_up 0 n) s1).
+  destruct (fold_m F2 (range_up 0 n) s1) as [s2| |]; cbn [omap bind] in *; rewrite <- H2; reflexivity.
+Qed.
+
+(** [difference_inplace]: the index loop over the common byte prefix is the pointwise [a & !o]. *)
+Lemma range_up_S k : range_up 0 (N.succ k) = range_up 0 k ++ [k].
+Proof.
+  unfold range_up. rewrite !N.sub_0_r. rewrite Nnat.N2Nat.inj_succ, seq_S, map_app.
+  cbn [map Nat.add]. rewrite Nnat.N2Nat.id. reflexivity.
+Qed.
+
+Lemma fold_m_app {S X} (F : S -> X -> outcome S) l1 l2 s :
+  fold_m F (l1 ++ l2) s = do s' <- fold_m F l1 s; fold_m F l2 s'.
+Proof.
+  revert s. induction l1 as [|x r IH]; intro s; cbn [app fold_m bind]; [reflexivity|].
+  destruct (F s x); cbn [bind]; [apply IH | reflexivity | reflexivity].
+Qed.
+
+Lemma diff_bytes_step (a o : bytes) k x y :
+  nth_error a k = Some x -> nth_error o k = Some y ->
+  set_at_nat (diff_bytes (firstn k a) (firstn k o) ++ skipn k a) k (N.land x (not8 y))
+  = Ok (diff_bytes (firstn (S k) a) (firstn (S k) o) ++ skipn (S k) a)
+  /\ nth_error (diff_bytes (firstn k a) (firstn k o) ++ skipn k a) k = Some x.
+Proof.
+  revert a o. induction k as [|k IH]; intros a o Ha Ho.
+  - destruct a as [|a0 ar]; [discriminate|]. destruct o as [|o0 or]; [discriminate|].
+    cbn in Ha, Ho. injection Ha as ->. injection Ho as ->. split; reflexivity.
+  - destruct a as [|a0 ar]; [discriminate|]. destruct o as [|o0 or]; [discriminate|].
+    cbn [nth_error] in Ha, Ho. destruct (IH ar or Ha Ho) as (H1 & H2).
+    cbn [firstn skipn diff_bytes app set_at_nat nth_error]. rewrite H1. split; [reflexivity | exact H2].
+Qed.
+
+Lemma diff_bytes_prefix (a o : bytes) :
+  diff_bytes (firstn (Nat.min (length a) (length o)) a) (firstn (Nat.min (length a) (length o)) o)
+  ++ skipn (Nat.min (length a) (length o)) a = diff_bytes a o.
+Proof.
+  revert o. induction a as [|x ar IH]; intro o; [reflexivity|].
+  destruct o as [|y or]; [reflexivity|]. cbn [length Nat.min firstn skipn diff_bytes app]. f_equal. apply IH.
+Qed.
+
+Theorem gen_bitfield_difference_inplace_eq a o :
+  omap bf_abs (Gen.bitfield_difference_inplace a o) = Ok (difference_inplace (bf_abs a) (bf_abs o)).
+Proof.
+  unfold Gen.bitfield_difference_inplace, difference_inplace.
+  destruct a as [ab al], o as [ob ol]; cbn [Gen.Bitfield_bytes Gen.Bitfield_len bf_abs bf_bytes bf_len].
+  set (F := fun (self : Gen.Bitfield) (i : N) =>
+              do t1 <- index_at (Gen.Bitfield_bytes self) i;
+              do t2 <- index_at ob i;
+              do upd <- set_at (Gen.Bitfield_bytes self) i (N.land t1 (not8 t2));
+              Ok (Gen.set_Bitfield_bytes self upd)).
+  assert (H : forall k, (k <= length ab)%nat -> (k <= length ob)%nat ->
+            fold_m F (range_up 0 (N.of_nat k)) {| Gen.Bitfield_bytes := ab; Gen.Bitfield_len := al |}
+            = Ok {| Gen.Bitfield_bytes := diff_bytes (firstn k ab) (firstn k ob) ++ skipn k ab; Gen.Bitfield_len := al |}).
+  { induction k as [|k IH]; intros Ha Ho; [reflexivity|].
+    rewrite Nnat.Nat2N.inj_succ, range_up_S, fold_m_app, IH by lia. cbn [bind fold_m].
+    destruct (nth_error ab k) as [x|] eqn:Ex; [|apply nth_error_None in Ex; lia].
+    destruct (nth_error ob k) as [y|] eqn:Ey; [|apply nth_error_None in Ey; lia].
+    destruct (diff_bytes_step ab ob k x y Ex Ey) as (H1 & H2).
+    unfold F at 1. cbn [Gen.Bitfield_bytes]. unfold index_at, set_at. rewrite Nnat.Nat2N.id, H2, Ey. cbn [bind].
+    rewrite H1. reflexivity. }
+  set (k := Nat.min (length ab) (length ob)).
+  replace (N.min (llen ab) (llen ob)) with (N.of_nat k) by (unfold llen, k; lia).
+  change (fold_m _ (range_up 0 (N.of_nat k)) _) with (fold_m F (range_up 0 (N.of_nat k)) {| Gen.Bitfield_bytes := ab; Gen.Bitfield_len := al |}).
+  rewrite H by (unfold k; lia). cbn [bind omap bf_abs Gen.Bitfield_bytes Gen.Bitfield_len].
+  unfold k. rewrite diff_bytes_prefix. reflexivity.
+Qed.
+
 (** The equivalences rest on no axioms. *)
 Print Assumptions gen_sanitize_offset_eq.
 Print Assumptions gen_read_offset_eq.
@@ -298,3 +439,5 @@ Print Assumptions gen_encoder_finalize_eq.
 Print Assumptions gen_bitfield_get_eq.
 Print Assumptions gen_bitfield_set_eq.
 Print Assumptions gen_bitfield_from_raw_bytes_eq.
+Print Assumptions gen_bitfield_shift_up_eq.
+Print Assumptions gen_bitfield_difference_inplace_eq.
